@@ -10,6 +10,8 @@
   C08.d protocol     every site that stores the result of uncompress_with_previous_offset(_, ref) into `packet` takes
                      `ref` from the cursor's offset(), stores the translated value with set_offset before recompute_rr,
                      and calls recompute_sections before returning Ok
+  C08.i stale cursor   no value read from offset()/offset_next() before the packet is replaced by its decompressed form is used after
+                     the replacement (other than as the reference handed to the decompressor)
   C08.e recompute    RRIterator::recompute computes offset_next, per section, with the same callee / constant as the
                      `next` of the iterator that walks that section
   C08.g presence     no listed operation returns successfully with the packet taken out of the object
@@ -18,6 +20,8 @@
 
 Not decided: equality with a fresh parse for arbitrary operation sequences (a run-time relation).
 """
+import re
+
 from analysis import facts as F
 from analysis.cfg import PathFlow, Automaton, VARIANTS
 from analysis.pkt import PacketEvents, PP
@@ -272,6 +276,7 @@ def run(ctx):
             geometry.shift_closure_rule(ctx, facts, cfg, 'C08.h')
         cache_rule(ctx, facts, cfg, pe)
         proto_rule(ctx, facts, cfg, pe)
+        stale_rule(ctx, facts, cfg)
         recompute_rule(ctx, facts, cfg)
         reparse_rule(ctx, facts, cfg)
     ctx.assume('cursor invariants (offset <= offset_next <= len) and well-formedness of accepted packets are run-time facts')
@@ -395,6 +400,138 @@ def proto_rule(ctx, facts, cfg, pe):
                           site=f['at'], path=flow.describe_path(key, w), config=cfg)
     if n < 6:
         ctx.violation(rid, '<floor>', 'in-place decompression sites', 'found %d sites, expected set_raw_name, delete (x2 impls) and uncompress (x3 impls)' % n, kind='below-floor')
+
+
+# ---------------------------------------------------------------------------
+class StaleAu(Automaton):
+    """state (replaced, frozenset of blocks whose offset()/offset_next() call ran before the replacement, complaints)"""
+    init = (False, frozenset(), frozenset())
+
+    def __init__(self, facts, uses, top):
+        self.facts = facts
+        self.top = top        # events are tracked in this body only (the one that stores the decompressed packet)
+        self.uses = uses      # {(fn key, block, 'stmt'|'term', index): set of offset-call blocks among the roots of its operands}
+
+    @staticmethod
+    def _is_cursor_call(t):
+        p = F.call_path(t) or ''
+        return bool(re.search(r'DNSIterable>?::offset(_next)?$', p))
+
+    def _use(self, q, f, bi, what, idx):
+        rep, pre, bad = q
+        if not rep:
+            return q
+        hit = self.uses.get((f['key'], bi, what, idx), set()) & pre
+        if hit:
+            bad = bad | {(bi, what, idx)}
+        return (rep, pre, bad)
+
+    def on_stmt(self, q, f, bi, s, env):
+        if f['key'] != self.top:
+            return q
+        idx = f['blocks'][bi]['stmts'].index(s)
+        q = self._use(q, f, bi, 'stmt', idx)
+        rep, pre, bad = q
+        if s['k'] == 'assign' and F.last_field(s['place']) == (PP, 'packet') and not rep:
+            return (True, pre, bad)
+        return q
+
+    def on_call(self, q, f, bi, t, env, flow):
+        if f['key'] != self.top:
+            return None
+        q0 = q
+        q = self._use(q, f, bi, 'term', 0)
+        rep, pre, bad = q
+        if self._is_cursor_call(t) and not rep:
+            return [((rep, pre | {bi}, bad), None)]
+        if q != q0:
+            return [(q, None)]
+        return None
+
+
+def stale_rule(ctx, facts, cfg):
+    """C08.i: a value obtained from the cursor's offset()/offset_next() before the packet is replaced by its decompressed form is not
+    used afterwards (positions move when names expand; the translated value must be re-read)."""
+    rid = 'C08.i'
+    n = 0
+    for key, f in sorted(facts.fns.items()):
+        if f['kind'] == 'Closure':
+            continue
+        if '@' not in key and any('@' in k for k in facts.inst_keys(f['path'], False)):
+            continue
+        has = any(t['k'] == 'call' and (F.call_path(t) or '').endswith('Compress::uncompress_with_previous_offset') for _, b in F.blocks(f) for t in [b['term']])
+        stores = any(s['k'] == 'assign' and F.last_field(s['place']) == (PP, 'packet') for _, b in F.blocks(f) for s in b['stmts'])
+        if not (has and stores):
+            continue
+        n += 1
+        defs = F.single_defs(f)
+        callblk = {id(b['term']): bi for bi, b in F.blocks(f) if b['term']['k'] == 'call'}
+
+        def cursor_roots(op):
+            out = set()
+            try:
+                for r in F.roots(f, defs, op):
+                    if r[0] == 'call' and re.search(r'DNSIterable>?::offset(_next)?$', str(r[1])) and id(r[2]) in callblk:
+                        out.add(callblk[id(r[2])])
+            except Exception:  # noqa
+                pass
+            return out
+
+        def ops_of(o, acc):
+            if isinstance(o, dict):
+                if o.get('k') in ('copy', 'move') and 'place' in o:
+                    acc.append(o)
+                    for pj in o['place'].get('proj', []):
+                        if pj.get('k') == 'index' and 'local' in pj:
+                            acc.append({'k': 'copy', 'place': {'local': pj['local'], 'proj': [], 'ty': {}}})
+                for v in o.values():
+                    ops_of(v, acc)
+            elif isinstance(o, list):
+                for v in o:
+                    ops_of(v, acc)
+        uses = {}
+        for bi, b in F.blocks(f):
+            for i, st in enumerate(b['stmts']):
+                if st['k'] != 'assign' or not st['place']['proj'] and st['rv']['k'] in ('use', 'ref', 'cast'):
+                    # plain copies / borrows only move the value around; what counts is where it ends up being used
+                    if st['k'] != 'assign' or not any(pj.get('k') == 'index' for pj in st['place']['proj']):
+                        continue
+                acc = []
+                ops_of(st.get('rv'), acc)
+                ops_of(st.get('place'), acc)
+                rs = set()
+                for o in acc:
+                    rs |= cursor_roots(o)
+                if rs:
+                    uses[(key, bi, 'stmt', i)] = rs
+            t = b['term']
+            if t['k'] == 'call':
+                p = F.call_path(t) or ''
+                if p.startswith(('std::option::', 'std::result::', '<std::result::', '<std::option::', 'core::')) or p.endswith('uncompress_with_previous_offset'):
+                    continue    # plumbing (?, ok_or, unwrap) and the decompressor itself, which is given the old position on purpose
+                rs = set()
+                for a in t['args']:
+                    rs |= cursor_roots(a)
+                if rs:
+                    uses[(key, bi, 'term', 0)] = rs
+        au = StaleAu(facts, uses, key)
+        flow = PathFlow(facts, au)
+        exits = flow.summary(key, StaleAu.init)
+        bad = set()
+        wit = None
+        for (q, kind) in exits:
+            if q[2]:
+                bad |= set(q[2])
+                wit = wit or (q, kind)
+        ctx.instance(rid, '%s: no cursor position read before the in-place decompression is used after it (%d use site(s) of cursor positions)' % (key, len(uses)), ok=not bad, site=f['at'])
+        for (bi, what, idx) in sorted(bad)[:2]:
+            at = (f['blocks'][bi]['stmts'][idx] if what == 'stmt' else f['blocks'][bi]['term']).get('at')
+            ctx.violation(rid, key, 'stale-offset@%s' % (F.call_path(f['blocks'][bi]['term']) or 'stmt').split('::')[-1] if what == 'term' else 'stale-offset@stmt',
+                          '%s uses, at %s, a record position that was read from the cursor before the packet was replaced by its decompressed form: names in front of the record have grown, '
+                          'the bytes are written to / read from the wrong place' % (key.split('::')[-1].split('@')[0], at), site=at,
+                          path=flow.describe_path(key, flow.witness(key, StaleAu.init, wit[0], wit[1])) if wit else None, config=cfg)
+    if n < 6:
+        ctx.violation(rid, '<floor>', 'in-place decompression sites', 'found %d sites, expected 6' % n, kind='below-floor')
 
 
 # ---------------------------------------------------------------------------
